@@ -89,6 +89,46 @@ def jobs(tier):
                                'time_limit': 2.0, 'depth': d}
 
 
+# --- wrappers inside the body of a template: the deep part holds nothing but parameter references (after C17-10) ---
+P = ('ref', 'p')
+TBODIES = {
+    'param': P,
+    'param-twice': ('seq', P, ('opt', P)),
+    'param-call': ('call', 'f', [P], []),             # the parameter f is itself a template
+    'param-value': ('rep', P, 'n', 'n'),              # a value parameter as count of an expression parameter
+    'param-choice': ('choice', ('seq', P, ('str', 'y')), P),
+}
+
+
+def template_jobs(tier):
+    ds = ((1, 5, 10, 14, 16, 17, 18, 19, 20, 21, 22, 24, 30, 38, 39, 40, 41, 45, 60, 80) if tier == 'quick' else range(1, 101))
+    for bname, tb in TBODIES.items():
+        for wname in WRAPPERS:
+            for d in ds:
+                body = wrap(tb, wname, d)
+                for host in ('rule', 'class'):
+                    params = {'param-call': ['f', 'p'], 'param-value': ['p', 'n']}.get(bname, ['p'])
+                    if host == 'rule':
+                        tdef = ('rule', params, body)
+                    else:
+                        tdef = ('class', params, [('k', False, body)])
+                    for aname, arg in (('lit', X), ('rule', ('ref', 'R')), ('seq', ('seq', ('ref', 'R'), ('opt', ('str', 'y'))))):
+                        if bname == 'param-call':
+                            args = [('ref', 'ID'), arg]
+                        elif bname == 'param-value':
+                            args = [arg, ('py', '2')]
+                        else:
+                            args = [arg]
+                        rules = [('start', ('rule', None, ('call', 'T', args, []))), ('T', tdef),
+                                 ('R', ('rule', None, X)), ('ID', ('rule', ['q'], ('ref', 'q')))]
+                        for ign in (False, True):
+                            mods = [(tuple(rules), ((('re', ' +'),) if ign else ()), 'start', None, (), False, 'named', None)]
+                            yield {'mods': mods, 'inputs': ['x', 'xx', '', 'y', 'xy', 'x ', 'xx ', 'xyx', 'xxy', 'x x'],
+                                   'mode': 'simple', 'named': d % 2 == 0,
+                                   'tag': 'nest-in-template-%s-%s-%s-%s%s' % (host, bname, aname, wname, '/ignore' if ign else ''),
+                                   'time_limit': 2.0, 'depth': d}
+
+
 def chain_jobs(tier):
     """a derived grammar overrides the rule referred to from the deep part (and adds an ignore of its own)"""
     ds = (1, 8, 12, 14, 15, 16, 17, 18, 19, 20, 22, 25, 30, 40, 60) if tier == 'quick' else range(1, 70)
@@ -183,12 +223,12 @@ def run(tier, seed):
     chk.rule = ('17 inner expressions (two choices that cannot fail as a whole but whose first option may fail after consuming, string, regex, rule reference, template call, class, sequence with rule references, use of a let name, '
                 'data-dependent count, choice of rule references, an inner let shadowing an outer name, counts used as lower / upper bound only, counts and names bound by plain and let class members) x 6 wrapper kinds ([e], (e), Opt(e), "\\x00"|e, ""'
                 '>>e, mixed) x every nesting depth 1..60 plus 70..120 step 10 (thorough: every depth 1..130) x ignore off/on x unnamed/named, on the '
-                'accepted text and near-misses; the rule-bearing inner kinds additionally in a base grammar extended by a grammar that overrides the rule (and adds an ignore) at 15 depths (thorough 1..69); oracle: reference model of the wrapped expression; plus input-driven rule recursion to '
+                'accepted text and near-misses; the rule-bearing inner kinds additionally in a base grammar extended by a grammar that overrides the rule (and adds an ignore) at 15 depths (thorough 1..69); 5 template bodies made of parameter references only (parameter, twice, called as a template, repeated by a value parameter, in a choice) wrapped INSIDE a rule or class template x 6 wrapper kinds x 20 depths (thorough 1..100) x 3 argument shapes x ignore off/on; oracle: reference model of the wrapped expression; plus input-driven rule recursion to '
                 'depth 10^3 and 10^4 (thorough 10^5) through a plain rule, template, class, mixfix row, class list and with ignore under the '
                 'default recursion limit; non-trivial = depth >= 18 (beyond the first block-budget threshold)')
     chk.assumptions = ['reference interpreter', 'memory cap 4 GB per worker']
     deep = [1000, 10000] if tier == 'quick' else [1000, 10000, 100000]
-    alljobs = [('deep', k, n) for n in deep for k in DEEP] + list(jobs(tier)) + list(chain_jobs(tier))
+    alljobs = [('deep', k, n) for n in deep for k in DEEP] + list(jobs(tier)) + list(chain_jobs(tier)) + list(template_jobs(tier))
     alljobs.sort(key=lambda j: 0 if isinstance(j, tuple) else 1)
     chk.explore(dispatch, alljobs, chunk=2, job_deadline=300)
     # non-trivial count: cases at depth >= 18 are not tracked per case by e1; approximate from jobs
